@@ -4,6 +4,7 @@ write), and snapshot the tree afterwards."""
 from __future__ import annotations
 
 import builtins
+import errno
 import json
 import os
 import shutil
@@ -82,6 +83,10 @@ class Sandbox:
             shutil.rmtree(self.other, ignore_errors=True)
 
 
+class InjectedFault(OSError):
+    """the I/O error the tracer raises in place of an operation (fail_at)"""
+
+
 class _CrashingWriter:
     """wraps a file opened for writing: every write is split in two with a crash point between the halves"""
 
@@ -102,7 +107,15 @@ class _CrashingWriter:
         self._f.__enter__()
         return self
 
+    def close(self):
+        # whatever Python still buffers reaches the file only now: a crash point just before
+        if not self._f.closed:
+            self._t.point("preclose", self._p)
+        return self._f.close()
+
     def __exit__(self, *a):
+        if not self._f.closed:
+            self._t.point("preclose", self._p)
         return self._f.__exit__(*a)
 
     def __getattr__(self, n):
@@ -116,8 +129,9 @@ class Tracer:
     """audit-hook recorder; `crash_at` = ordinal (1-based) of the crash point at which the process dies *before*
     the operation takes place (for `midwrite`: after the first half of the data reached the file)"""
 
-    def __init__(self, sandbox, crash_at=None, split_writes=True):
+    def __init__(self, sandbox, crash_at=None, split_writes=True, fail_at=None):
         self.sb, self.crash_at, self.events, self.n = sandbox, crash_at, [], 0
+        self.fail_at = fail_at          # ordinal of the operation that fails with OSError (ENOSPC) instead of taking place
         self.active = False
         self.split_writes = split_writes
 
@@ -136,6 +150,9 @@ class Tracer:
         self.events.append([kind] + [self.sb.rel(p) for p in paths])
         if self.crash_at is not None and self.n == self.crash_at:
             os._exit(CRASH_EXIT)
+        if self.fail_at is not None and self.n == self.fail_at and kind != "preclose":
+            self.fail_at = None
+            raise InjectedFault(errno.ENOSPC, "No space left on device (injected)", str(paths[0]) if paths else None)
 
     def hook(self, event, args):
         if not self.active:
@@ -153,7 +170,7 @@ class Tracer:
                 paths = [a for a in args[:2] if isinstance(a, (str, bytes, os.PathLike))]
                 if paths and any(self.relevant(p) for p in paths):
                     self.point(event, *paths)
-        except SystemExit:
+        except (SystemExit, InjectedFault):
             raise
         except Exception:
             pass
@@ -215,7 +232,7 @@ def run_forked(fn, timeout=120):
     return code, payload
 
 
-def traced_call(sb, call, cwd, tmpdir, crash_at=None, capture_logs=False):
+def traced_call(sb, call, cwd, tmpdir, crash_at=None, capture_logs=False, fail_at=None):
     """in a forked child: chdir, point TMPDIR at `tmpdir`, trace, run call() -> dict(outcome, events, logs)"""
 
     def child():
@@ -235,8 +252,20 @@ def traced_call(sb, call, cwd, tmpdir, crash_at=None, capture_logs=False):
                 root.removeHandler(h)
             root.addHandler(H(level=0))
             # the CLI's basicConfig would add a stderr handler; keep only its effect on the level
-            logging.basicConfig = lambda *a, **k: root.setLevel(k["level"]) if k.get("level") is not None else None
-        tr = Tracer(sb, crash_at=crash_at)
+            configured = [False]
+
+            def basic_config(*a, **k):
+                # as the library's: the first call of the process (or one with force=True) takes effect, later ones do nothing
+                if k.get("force"):
+                    configured[0] = False
+                if configured[0]:
+                    return
+                configured[0] = True
+                if k.get("level") is not None:
+                    root.setLevel(k["level"])
+
+            logging.basicConfig = basic_config
+        tr = Tracer(sb, crash_at=crash_at, fail_at=fail_at)
         tr.install()
         tr.active = True
         try:
@@ -266,7 +295,7 @@ def norm_events(events):
             continue
         if e[0] == "open-w":
             out.append(["create", e[1]])
-        elif e[0] == "midwrite":
+        elif e[0] in ("midwrite", "preclose"):
             pass
         elif e[0] == "os.rename":
             out.append(["replace", e[1], e[2]])
